@@ -133,27 +133,28 @@ theorem getVersion_noPanic (m : Mem) (b : Bytes) (k : Key) (vid : Nat) : ∀ s, 
         · simp
         · cases o.versions.find? (·.id == vid) <;> simp
 
-theorem verLoop_noPanic (p : Prefix) (masked : Bool) (mk : Int) (objs : List (Key × Obj)) :
-    ∀ (first : Option Nat) (cnt : Int) (acc : VersionList) (s : PanicSite), verLoop p masked mk objs first cnt acc ≠ .panic s := by
+theorem verLoop_noPanic (p : Prefix) (masked : Bool) (mk : Int) (km : Bytes) (vm : Option Nat) (objs : List (Key × Obj)) :
+    ∀ (cnt : Int) (acc : VersionList) (s : PanicSite), verLoop p masked mk km vm objs cnt acc ≠ .panic s := by
   induction objs with
-  | nil => intro first cnt acc s; simp [verLoop]
+  | nil => intro cnt acc s; simp [verLoop]
   | cons q rest ih =>
-    intro first cnt acc s
+    intro cnt acc s
     obtain ⟨k, o⟩ := q
     unfold verLoop
     cases p.match_ k with
-    | none => exact ih first cnt acc s
+    | none => exact ih cnt acc s
     | some r =>
       obtain ⟨cp, mp⟩ := r
       cases cp with
-      | true => exact ih _ _ _ s
+      | true => exact ih _ _ s
       | false =>
         simp only
         split
         · simp
         · split
           · simp
-          · exact ih _ _ _ s
+          · split <;> simp
+          · exact ih _ _ s
 
 theorem listVersions_noPanic (m : Mem) (b : Bytes) (p : Prefix) (km : Bytes) (vm : Option Nat) (mk : Int) :
     ∀ s, m.listVersions b p km vm mk ≠ .panic s := by
@@ -164,12 +165,10 @@ theorem listVersions_noPanic (m : Mem) (b : Bytes) (p : Prefix) (km : Bytes) (vm
   | some bk =>
     simp only
     split
-    · exact verLoop_noPanic _ _ _ _ _ _ _ s
+    · exact verLoop_noPanic _ _ _ _ _ _ _ _ s
     · split
       · simp
-      · split
-        · simp
-        · exact verLoop_noPanic _ _ _ _ _ _ _ s
+      · exact verLoop_noPanic _ _ _ _ _ _ _ _ s
 
 /-- **handle_good**: in every configuration, for every request with arbitrary parameters, a
     store satisfying the invariant (no object without a current version) is taken to a store
